@@ -1858,17 +1858,16 @@ class DecayGroup(BaseDecayGroup, AmpBase):
     @functools.lru_cache()
     def get_swap_factor(self, key):
         factor = 1.0
-        used = []
         for i, j in zip(self.identical_particles, key[1]):
             p = self.get_particle(i[0])
             if int(p.J * 2) % 2 == 0:
                 continue
-            for m, n in zip(i, j):
-                if (m, n) in used or (n, m) in used:
-                    continue
-                used.append((m, n))
-                if m != n:
-                    factor *= -1.0
+            # sign of the permutation i -> j: (-1)^(number of inversions)
+            idx = [list(i).index(n) for n in j]
+            for m in range(len(idx)):
+                for n in range(m + 1, len(idx)):
+                    if idx[m] > idx[n]:
+                        factor *= -1.0
         return factor
 
     @functools.lru_cache()
